@@ -122,41 +122,41 @@ type arm struct {
 }
 
 type run struct {
-	id      string
-	toks    []string
-	ev      *evlog
-	w       *world
-	A, B    *ice.Agent
-	conn    atomic.Pointer[ice.Conn]
-	netA    *fnet
-	netB    *fnet
-	mu      sync.Mutex
-	socks   []*fconn // sockets of A's candidates, by candidate index
-	closers []*closerRec
-	calls   []*callRec
-	states  []int
-	armed   [4]atomic.Pointer[arm]
-	reent   [4]atomic.Int32
-	cbAfter atomic.Int32 // callbacks entered after gracefulRet was set
-	gracefulRet atomic.Bool
-	bound   time.Duration
-	ctx     context.Context
-	cancel  context.CancelFunc
-	stop    chan struct{}
-	ctl     bool
-	ncand   int
-	fast    bool
-	renom   bool
-	modes   [3]int
-	cerr    [3]bool
-	connected atomic.Bool
-	poisoned  bool
-	rng     *rand.Rand
-	lastRemote ice.Candidate
-	lastLocal  ice.Candidate
+	id                         string
+	toks                       []string
+	ev                         *evlog
+	w                          *world
+	A, B                       *ice.Agent
+	conn                       atomic.Pointer[ice.Conn]
+	netA                       *fnet
+	netB                       *fnet
+	mu                         sync.Mutex
+	socks                      []*fconn // sockets of A's candidates, by candidate index
+	closers                    []*closerRec
+	calls                      []*callRec
+	states                     []int
+	armed                      [4]atomic.Pointer[arm]
+	reent                      [4]atomic.Int32
+	cbAfter                    atomic.Int32 // callbacks entered after gracefulRet was set
+	gracefulRet                atomic.Bool
+	bound                      time.Duration
+	ctx                        context.Context
+	cancel                     context.CancelFunc
+	stop                       chan struct{}
+	ctl                        bool
+	ncand                      int
+	fast                       bool
+	renom                      bool
+	modes                      [3]int
+	cerr                       [3]bool
+	connected                  atomic.Bool
+	poisoned                   bool
+	rng                        *rand.Rand
+	lastRemote                 ice.Candidate
+	lastLocal                  ice.Candidate
 	bUfrag, bPwd, aUfrag, aPwd string
-	wg      sync.WaitGroup
-	gathering bool
+	wg                         sync.WaitGroup
+	gathering                  bool
 }
 
 func itoa(i int) string { return strconv.Itoa(i) }
@@ -743,10 +743,10 @@ type later struct {
 }
 
 type digest struct {
-	d        ice.VerifCloseDigest
-	writes   int32
-	nstates  int
-	evCalls  int
+	d       ice.VerifCloseDigest
+	writes  int32
+	nstates int
+	evCalls int
 }
 
 func (r *run) digest() digest {
@@ -760,7 +760,9 @@ func (r *run) digest() digest {
 func (r *run) battery() []later {
 	a := r.A
 	conn := r.theConn()
-	shortCtx := func() (context.Context, context.CancelFunc) { return context.WithTimeout(context.Background(), r.bound) }
+	shortCtx := func() (context.Context, context.CancelFunc) {
+		return context.WithTimeout(context.Background(), r.bound)
+	}
 	newRemote, _ := ice.NewCandidateHost(&ice.CandidateHostConfig{Network: "udp", Address: "10.0.0.77", Port: 7777, Component: 1})
 	pl := []byte{0x80, 1, 2, 3, 4, 5, 6, 7}
 	type item struct {
